@@ -24,6 +24,7 @@ EXPLANATION = (
     "the subpath/subset-constraint rows through which the safety-as-constraints options act; "
     "(R5) greedy / guessed-weights results are adopted only under the tests that tie them to the k under test; (R6) every option key "
     "written is read under the same spelling; (R7) constraint edges enter the trusted set only under a full-coverage test; (R8) the flow-safe paths imposed by the flow-safety option are computed with the strict excess-flow threshold.  "
+    "(R9) the greedy option's coverage test counts path edges (max_occurrence body) and queued bound fixes reach the solver on every path of optimize().  "
     "NOT decided: that fixing safe sequences / pruning edges preserves the optimum (C06), equality of optima."
 )
 DECIDED = ["flag <-> constraint pairing and consumer mapping", "flag producers run before consumers", "bound route == constraint route",
